@@ -70,6 +70,9 @@ func engineCases(g *Gen, n int, taint, hostile bool) []*Case {
 		recs = append(recs, g.node("grpc", nil, []int{code}, g.LeafOp("new")),
 			g.WrapOp("wrap", g.node("grpc", nil, []int{code}, g.LeafOp("goerr")), 2))
 	}
+	// the SAME error object reachable through two branches of a multi-cause node (a sentinel shared
+	// by both branches, an error joined with an annotated copy of itself)
+	recs = append(recs, sharedObjectRecipes(g)...)
 	for _, code := range []int{0, 200, 404, 500} {
 		recs = append(recs, g.node("http", nil, []int{code}, g.LeafOp("new")),
 			g.WrapOp("hint", g.node("http", nil, []int{code}, g.LeafOp("goerr")), 2))
@@ -175,8 +178,29 @@ func multiRecipe2(g *Gen) (*R, *R) {
 	}
 }
 
+// sharedObjectRecipes: multi-cause trees in which one error object occurs in several branches.
+func sharedObjectRecipes(g *Gen) []*R {
+	sent := func(id int) *R { return g.node("sentinel", nil, []int{id}) }
+	dl := func() *R { return g.node("deadline", nil, nil) }
+	var out []*R
+	for _, m := range []string{"joinraw", "stdjoin"} {
+		out = append(out,
+			g.MultiOp(m, []*R{g.WrapOp("wrap", sent(1), 2), g.WrapOp("wrap", sent(1), 2)}),
+			g.MultiOp(m, []*R{sent(2), g.WrapOp("telemetry", sent(2), 2)}),
+			g.MultiOp(m, []*R{sent(3), sent(3)}),
+			g.WrapOp("wrap", g.MultiOp(m, []*R{dl(), g.WrapOp("hint", dl(), 2), g.LeafOp("new")}), 2),
+			g.MultiOp(m, []*R{g.MultiOp(m, []*R{sent(4), g.LeafOp("goerr")}), g.WrapOp("withstack", sent(4), 2)}))
+	}
+	return out
+}
+
 func multiCases(g *Gen, n int) []*Case {
 	var cases []*Case
+	for i, rec := range sharedObjectRecipes(g) {
+		refs := sentinelRefs(g)
+		refs = append(refs, g.Clone(rec))
+		cases = append(cases, buildCase(fmt.Sprintf("shared%d", i), rec, refs, []int{0, 1, 2, 3, 4, 6, 9}))
+	}
 	for i := 0; i < n; i++ {
 		rec, kid0 := multiRecipe2(g)
 		refs := sentinelRefs(g)
@@ -199,7 +223,8 @@ func annotCases(g *Gen, n int) []*Case {
 func annotRecipe(g *Gen) *R {
 	ops := []string{"hint", "hint", "detail", "detail", "issuelink", "telemetry", "tags", "assertion", "wrap", "withstack",
 		"domain", "secondary", "mark", "hop"}
-	hintPool := []string{"h1", "h2", "", "h1", "multi\nline hint", "See: dup", "disk is 100% full"}
+	hintPool := []string{"h1", "h2", "", "h1", "multi\nline hint", "See: dup", "disk is 100% full",
+		"ends with a newline\n", "\n", "--", "  ", "a\n--\nb"}
 	{
 		var rec *R
 		switch g.rng.Intn(4) {
@@ -422,9 +447,11 @@ func propCases(res *Result, prop, tier string, g *Gen, n int, batch int) []*Case
 	}
 	if prop == "C14" && batch == 0 {
 		oracleC14TypedNil(res)
+		oracleC14CauserMulti(res)
 	}
 	if prop == "C11" && batch == 0 {
 		oracleC11Source(res)
+		oracleC11DeepStacks(res)
 	}
 	switch prop {
 	case "C19":
@@ -442,6 +469,9 @@ func propCases(res *Result, prop, tier string, g *Gen, n int, batch int) []*Case
 		}
 		if prop == "C06" && batch == 0 {
 			cases = append(cases, decodedHostileCases()...)
+		}
+		if prop == "C03" && batch == 0 {
+			cases = append(cases, decodedTaintCases(g)...)
 		}
 		if prop != "C15" && batch == 0 {
 			// runtime.Error, *net.OpError, redact.SafeMessager (kinds the special-case formatter knows
@@ -489,7 +519,13 @@ func propCases(res *Result, prop, tier string, g *Gen, n int, batch int) []*Case
 		if prop == "C02" && batch == 0 {
 			cases = append(cases, emptyTextCases("C02", g)...)
 		}
+		if (prop == "C01" || prop == "C02") && batch == 0 {
+			cases = append(cases, sharedWrapperCases()...)
+		}
 	case "C13":
+		if batch == 0 {
+			cases = append(cases, sharedWrapperCases()...)
+		}
 		cases = append(cases, pairCases(g)...)
 		cases = append(cases, multiCases(g, n)...)
 	default:
